@@ -2115,6 +2115,9 @@ def serialize_tensor_into(
     if isinstance(from_, TensorProtoTensor):
         # Directly copy from the tensor proto if it is available
         tensor_proto.CopyFrom(from_.raw)
+        # The copied proto already carries its metadata entries. Replace them with
+        # the (possibly edited) IR metadata instead of appending them a second time.
+        tensor_proto.ClearField("metadata_props")
         if from_.metadata_props:
             _serialize_metadata_props_into(tensor_proto.metadata_props, from_.metadata_props)
         return
